@@ -950,6 +950,12 @@ class Engine:
         if isinstance(op, ast.Add) and (isinstance(a, VFn) or isinstance(b, VFn)) and (isinstance(a, (VFn, VRef)) and isinstance(b, (VFn, VRef))):
             # list + opaque sequence (e.g. [x] + list(sympy.symbols(...))): an opaque object; only ever handed to opaque calls
             return VFn(z3.Const(fresh_name("opq"), Fn))
+        if (isinstance(a, VFn) and isinstance(b, (VInt, VFloat))) or (isinstance(b, VFn) and isinstance(a, (VInt, VFloat))):
+            # number (op) opaque object, e.g. 1 / sqrt(eq) on sympy expressions: an opaque object determined by the operator and the operands
+            num, obj, left = (a, b, True) if isinstance(b, VFn) else (b, a, False)
+            nt = z3.ToReal(num.t) if isinstance(num, VInt) else as_float(num).val
+            f = z3.Function("opaque.%s.%s" % (type(op).__name__, "numleft" if left else "numright"), z3.RealSort(), Fn, Fn)
+            return VFn(f(nt, obj.t))
         if isinstance(a, VStr) and isinstance(b, VStr) and isinstance(op, ast.Add):
             return VStr(a.s + b.s)
         if isinstance(op, ast.Add) and isinstance(a, (VStr, VLabel)) and isinstance(b, (VStr, VLabel)):
